@@ -374,9 +374,16 @@ func vfGenTrig(rt *rapid.T, freshID func() string) vfTrig {
 }
 
 func vfGenPrefix(rt *rapid.T) []byte {
-	switch rapid.IntRange(0, 4).Draw(rt, "prefixkind") {
+	switch rapid.IntRange(0, 5).Draw(rt, "prefixkind") {
 	case 0:
 		return nil
+	case 5:
+		// earlier output of the same read, long enough to reach beyond the first 40 bytes, ending in one of the words that end a
+		// transfer (a script that printed "Saved ..." and then started tsz; the tail of the previous transfer's message)
+		pad := rapid.SampledFrom([]string{"user@host:~$ ./backup.sh && tsz archive.tgz\r\nbackup of /home/user done\r\n", "- /tmp/downloads/a-rather-long-file-name-number-one.bin\r\n- /tmp/downloads/two.bin\r\n",
+			strings.Repeat("x", 39), strings.Repeat("y", 40), strings.Repeat("z", 41) + "\r\n"}).Draw(rt, "prefixpad")
+		word := rapid.SampledFrom([]string{"Saved 3 files\r\n", "Stopped\r\n", "Cancelled\r\n", "Interrupted\r\n", "#CFG:abc\n", "Saved", "[1]+  Stopped   vim\r\n"}).Draw(rt, "prefixword")
+		return []byte(pad + word + rapid.SampledFrom([]string{"", "\x1b7\x07", "user@host:~$ tsz x\r\n\x1b7\x07"}).Draw(rt, "prefixtail"))
 	case 1:
 		return []byte("\x1b7\x07")
 	case 2:
